@@ -432,8 +432,19 @@ func c16Prop(c *sim.Case) {
 		kinds  []int
 	}
 	plans := make([]plan, nG)
+	// a burst of arrivals: in a third of the workloads every goroutine starts with a run of requests without a cookie
+	// (a page whose sub-requests all arrive before the first login redirect has been followed), so that whatever is
+	// shared between login redirects is used by many checks at the same instant, many times over
+	burst := 0
+	if sim.Weighted(c, "arrival-burst", 2, 1) == 1 {
+		burst = 10 + sim.Pick(c, "burst.n", 40)
+		c.Class("workload:arrival-burst")
+	}
 	for g := range plans {
 		plans[g].tenant = sim.Pick(c, "tenant", nT)
+		for i := 0; i < burst; i++ {
+			plans[g].kinds = append(plans[g].kinds, 0)
+		}
 		for i := 0; i < perG; i++ {
 			plans[g].kinds = append(plans[g].kinds, sim.Weighted(c, "kind", 3, 4, 3, 1, 2))
 		}
@@ -676,7 +687,7 @@ func TestC16(t *testing.T) {
 	if !raceEnabled {
 		t.Fatalf("C16 must be built with -race")
 	}
-	r.Rule = "workload programs: 1-3 OIDC filters (static or discovered endpoints, static JWKS or fetcher with 1 s refresh, literal secret or Kubernetes secret reference, optional watched CA file with 10-30 ms refresh) on the shared memory store or Redis, assembled with the real session-store factory, TLS pool and JWKS provider behind server.ExtAuthZFilter.Check; 8-64 goroutines x 3-12 requests of kinds {no cookie, login + fresh session, wait for expiry + refresh, logout, excluded path}, every third request under one of two sessions per filter that all goroutines share (parallel requests of one browser, including concurrent refreshes of one session); background goroutines: secret reconcile every 3 ms, CA file rewrite every 15 ms, key publication every 20 ms. Built with -race, GORACE halt_on_error=0. Oracle: race-detector reports canonicalised to the unordered pair of innermost authservice frames with access kinds; recovered panics; a check that has not returned after 45 s although every simulated peer answers within milliseconds is reported as a hang with the blocked frame; a 240 s watchdog on the whole workload (expiry = inconclusive, exit 2). Non-trivial = at least two checks were in flight simultaneously and every requested background updater fired; distinct = distinct workload program."
+	r.Rule = "workload programs: 1-3 OIDC filters (static or discovered endpoints, static JWKS or fetcher with 1 s refresh, literal secret or Kubernetes secret reference, optional watched CA file with 10-30 ms refresh) on the shared memory store or Redis, assembled with the real session-store factory, TLS pool and JWKS provider behind server.ExtAuthZFilter.Check; 8-64 goroutines x 3-12 requests (in a third of the workloads preceded by a burst of 10-49 requests without a cookie from every goroutine) of kinds {no cookie, login + fresh session, wait for expiry + refresh, logout, excluded path}, every third request under one of two sessions per filter that all goroutines share (parallel requests of one browser, including concurrent refreshes of one session); background goroutines: secret reconcile every 3 ms, CA file rewrite every 15 ms, key publication every 20 ms. Built with -race, GORACE halt_on_error=0. Oracle: race-detector reports canonicalised to the unordered pair of innermost authservice frames with access kinds; recovered panics; a check that has not returned after 45 s although every simulated peer answers within milliseconds is reported as a hang with the blocked frame; a 240 s watchdog on the whole workload (expiry = inconclusive, exit 2). Non-trivial = at least two checks were in flight simultaneously and every requested background updater fired; distinct = distinct workload program."
 	r.Assumptions = []string{"the race detector reports only races between accesses that both execute in the run; paths the workload never takes are invisible", "deadlock freedom is observed, not proven"}
 	parts := map[string]func(*sim.Case){"workloads": c16Prop, "probe": c16Probe}
 	if r.Replay != "" {
